@@ -71,11 +71,11 @@ def build_seed(name, A):
     if name == 'IndexHierarchy':
         return sf.IndexHierarchy.from_labels([('a', 1), ('a', 2), ('b', 1)], name='ih')
     if name == 'IndexHierarchy-depth3':
-        return sf.IndexHierarchy.from_labels([('a', 1, 'x'), ('a', 1, 'y'), ('a', 2, 'x'), ('b', 1, 'x')], name='ih3')
+        return sf.IndexHierarchy.from_labels([('a', 1, 'x'), ('a', 1, 'y'), ('a', 2, 'x'), ('b', 3, 'x'), ('b', 3, 'y')], name='ih3')   # middle labels distinct across parents: outer depths can be dropped
     if name == 'Series-hier3':
-        return sf.Series(A['i8'], index=sf.IndexHierarchy.from_labels([('a', 1, 'x'), ('a', 2, 'x'), ('b', 1, 'y')]), name='s')
+        return sf.Series(A['i8'], index=sf.IndexHierarchy.from_labels([('a', 1, 'x'), ('a', 2, 'x'), ('b', 3, 'y')]), name='s')
     if name == 'Frame-hier3-index':
-        return sf.Frame.from_items((('p', A['i8']), ('q', A['f8'])), index=sf.IndexHierarchy.from_labels([('a', 1, 'x'), ('a', 2, 'x'), ('b', 1, 'y')]), name='f')
+        return sf.Frame.from_items((('p', A['i8']), ('q', A['f8'])), index=sf.IndexHierarchy.from_labels([('a', 1, 'x'), ('a', 2, 'x'), ('b', 3, 'y')]), name='f')
     if name == 'IndexHierarchy-from-arrays':
         return sf.IndexHierarchy._from_type_blocks(sf.TypeBlocks.from_blocks((A['lab'], A['i8'])))
     if name == 'Series-float':
@@ -476,6 +476,18 @@ def check_after(ctx, tag, opname, result, existing, caller, info):
         if s1 != s0:
             ctx.violation(f'{tag}|{opname}|existing-container-changed', **info, container=type(cont).__name__)
             return False, []
+        # what the snapshot does not read: label -> position lookups and membership on every hierarchical axis (they go through the level tree, not the arrays)
+        for ax in ([cont] if isinstance(cont, IndexBase) else [getattr(cont, 'index', None), getattr(cont, 'columns', None)]):
+            if isinstance(ax, sf.IndexHierarchy) and len(ax) <= 12:
+                try:
+                    labs_ = [tuple(t) for t in ax.values.tolist()]
+                    pos_ = [ax.loc_to_iloc(t) for t in labs_]
+                    ok_ = pos_ == list(range(len(labs_))) and all(t in ax for t in labs_)
+                except Exception:
+                    ok_ = False
+                if not ok_:
+                    ctx.violation(f'{tag}|{opname}|existing-container-lookups-changed', **info, container=type(cont).__name__)
+                    return False, []
     arrs, conts = [], []
     collect_arrays(result, arrs, conts)
     for cont, _ in existing:
